@@ -100,6 +100,8 @@ def main():
                 old = json.load(open(mp))
                 if "checks" in old and "checks" in meta:
                     old["checks"].update(meta["checks"]); meta["checks"] = old["checks"]
+                if not any("pinned test suite" in x for x in meta["ran"]):
+                    meta["ran"] += [x + " (earlier evaluation run)" for x in old.get("ran", []) if "pinned test suite" in x and "earlier evaluation" not in x] or [x for x in old.get("ran", []) if "pinned test suite" in x]
                 for k in ("needs_to_manifest", "what"):
                     if k in old:
                         meta[k] = old[k]
